@@ -238,6 +238,37 @@ def check_tree(t, shape, names, maxcomp, only=None, kind="user"):
                                 dict(ctx, engine="E2", module=MOD, part="semantics", start=start, path=path, ignorecase=ic,
                                      denotation=sorted(D), relaxed=relaxed, strict=strict, history_dependent=hist))
         t.obs((shape, names, start, t.c["evaluations"]))
+    if not only and kind == "user" and 2 <= m.n <= 3 and maxcomp >= 3 and not RECONF[0]:
+        # history on the SAME resolver objects: every pattern above has been asked; now one child is renamed (same children,
+        # same order) and short patterns are asked again - the answers follow the new names
+        for i in range(1, m.n):
+            old_name = nodes[i].name
+            for new_name in ("zz", names[0]):
+                if new_name == old_name:
+                    continue
+                nodes[i].name = new_name
+                names2 = tuple(new_name if v == i else names[v] for v in range(m.n))
+                bad = None
+                for start in range(m.n):
+                    for path in patterns_for(names2, sep, 1) + patterns_for(names, sep, 1):
+                        for ic in (False, True):
+                            D = Ref(m, names2, ic).glob(start, path, sep)
+                            relaxed = call(res[(ic, True)], nodes[start], path, idm)
+                            t.c["evaluations"] += 1
+                            t.c["calls_after_rename"] += 1
+                            if relaxed[0] != "list" or set(relaxed[1]) != D:
+                                bad = (start, path, ic, relaxed, sorted(D))
+                                break
+                        if bad:
+                            break
+                    if bad:
+                        break
+                nodes[i].name = old_name
+                if bad:
+                    t.violation("C08: glob(%r) on a re-used Resolver after renaming node %d to %r does not follow the new names" % (bad[1], i, new_name),
+                                dict(ctx, engine="E2", module=MOD, part="semantics", history="rename", renamed=[i, new_name], start=bad[0], path=bad[1],
+                                     ignorecase=bad[2], relaxed=bad[3], denotation=bad[4], strict=None))
+                    return
     if not only:
         t.sample({"shape": shape, "names": list(names), "patterns": pats[:5] + pats[-5:]}, cap=1)
 
@@ -533,7 +564,7 @@ def replay(c):
         return [v["why"] for v in t.violations]
     RECONF[0] = bool(c.get("reconfigured"))
     check_tree(t, _tup(c["shape"]), tuple(c["names"]), 4 if len(c["path"].split("/")) > 4 or c["path"].count("/") >= 3 else 3,
-               None if RECONF[0] else (c["start"], c["path"], c["ignorecase"]), c.get("kind", "user"))
+               None if RECONF[0] or c.get("history") == "rename" else (c["start"], c["path"], c["ignorecase"]), c.get("kind", "user"))
     return [v["why"] for v in t.violations]
 
 
@@ -557,6 +588,12 @@ def plan(tier):
         for n in range(1, 4 if tier == "quick" else 5):
             for s in tree.plane_trees(n):
                 for names in itertools.product(("a", "A", "b"), repeat=n):
+                    items.append((s, names, 2, kind))
+    # names containing '/' where the class separator is another one: '/' is an ordinary character there
+    for kind in ("sep:|", "sep:::"):
+        for n in range(1, 4):
+            for s in tree.plane_trees(n):
+                for names in itertools.product(("a/b", "a", "/"), repeat=n):
                     items.append((s, names, 2, kind))
     return items
 
@@ -589,7 +626,7 @@ def run(tier):
         "bounds": {"semantic_trees": len(items), "semantic_states": sem_states, "history_depth": depth, "cache_states": t.c["states"] - sem_states},
     }
     return {"tally": t, "coverage": cov,
-            "guards": ("wildcard_pattern_checks", "get_calls_in_cache_histories", "non_ascii_agreement_checks", "positional_calls", "reconfigured_resolver_trees", "capacity_checks", "nontrivial", "many_matches", "strict_raises:ChildResolverError", "strict_raises:RootResolverError",
+            "guards": ("calls_after_rename", "wildcard_pattern_checks", "get_calls_in_cache_histories", "non_ascii_agreement_checks", "positional_calls", "reconfigured_resolver_trees", "capacity_checks", "nontrivial", "many_matches", "strict_raises:ChildResolverError", "strict_raises:RootResolverError",
                        "strict_raises:ResolverError", "get_agreement_checked", "calls_after_fill", "calls_after_colliding_pattern",
                        "states_with_full_cache", "merged_states"),
             "assumptions": ["'**' directly after the leading separator is excluded (the statement does not say whether the root "
